@@ -435,19 +435,26 @@ def _cmp_any(term, pred):
 def rule_SB(ctx, tier):
     rr = RuleResult("SB", "subscription boundaries: expired iff height >= expiry; purged iff height >= expiry + delta; renewal arithmetic")
     P = ctx.prog
-    c = P.require(GK + "has_subscription_expired::{closure#0}")
-    ret = ctx.og.local(c, 0)
-    good = False
-    if ret[0] == "agg" and ret[2] == "Ok":
-        tup = dict(ret[3]).get("0")
-        if tup and tup[0] == "tuple" and len(tup[1]) == 2:
-            cmp_, exp = tup[1]
-            if _cmp_any(cmp_, lambda op, l, r: op == "Ge" and has_call(l, "Atomic", "load") and "f:last_known_block_height" in og.show(l) and og.show(r).endswith("f:subscription_expiry")) and og.show(exp).endswith("f:subscription_expiry"):
-                good = True
-    if good:
-        rr.ok("expired = (last_known_block_height >= subscription_expiry), reports that expiry", sample={"rule": "SB", "has_subscription_expired returns": og.show(ret)[:200]})
+    # the verdict, whether it is built in a `map_or` closure or in a `match` arm of the function itself: every Ok(..) the
+    # function (or a closure nested in it) can build is (height >= user.subscription_expiry, user.subscription_expiry)
+    hse = P.require(GK + "has_subscription_expired")
+    oks = []
+    for cid in P.family(hse.id):
+        rt = ctx.og.local(P.bodies[cid], 0)
+        for x in og.walk(rt):
+            if isinstance(x, tuple) and x and x[0] == "agg" and x[1].endswith("Result") and x[2] == "Ok" and x not in oks:
+                oks.append(x)
+
+    def ok_shape(x):
+        tup = dict(x[3]).get("0")
+        if not (tup and tup[0] == "tuple" and len(tup[1]) == 2):
+            return False
+        cmp_, exp = tup[1]
+        return _cmp_any(cmp_, lambda op, l, r: op == "Ge" and has_call(l, "Atomic", "load") and "f:last_known_block_height" in og.show(l) and og.show(r).endswith("f:subscription_expiry")) and og.show(exp).endswith("f:subscription_expiry")
+    if oks and all(ok_shape(x) for x in oks):
+        rr.ok("expired = (last_known_block_height >= subscription_expiry), reports that expiry", sample={"rule": "SB", "has_subscription_expired returns": og.show(oks[0])[:200]})
     else:
-        rr.fail("expiry-comparison", "has_subscription_expired returns `%s`; expected Ok((height >= user.subscription_expiry, user.subscription_expiry))" % og.show(ret)[:240], where=c.span)
+        rr.fail("expiry-comparison", "has_subscription_expired returns `%s`; expected Ok((height >= user.subscription_expiry, user.subscription_expiry))" % (" | ".join(og.show(x)[:160] for x in oks) or "no Ok value"), where=hse.span)
     h = P.require(GK + "has_subscription_expired")
     for bb in sites_containing(h, "HashMap", "::get"):
         if arg_origin(ctx, h, bb, 1) == ("param", h.id, 2):
